@@ -3,7 +3,7 @@
 present) that is not yet in /verif/seeded, as <PID>_m3 (A) / <PID>_m4 (B).  Not part of any registered command."""
 import json, os, subprocess, sys
 from concurrent.futures import ThreadPoolExecutor
-base = '/tmp/sa_out'
+base = os.environ.get('ROUND_DIR', '/tmp/sa_out')
 suffix = {'A': os.environ.get('ROUND_A', 'm3'), 'B': os.environ.get('ROUND_B', 'm4')}
 jobs = []
 for pid in sorted(os.listdir(base)):
